@@ -7,6 +7,7 @@ import Gvlean.Spec.Email
 import Gvlean.Spec.Ascii
 import Driver.Sexp
 import Gvlean.Spec.Report
+import Gvlean.Spec.Mw
 
 open Go Driver
 
@@ -36,6 +37,20 @@ def stepSpec (line : String) : String :=
     match (readSx d).bind sxDecl with
     | some decl => toString (Spec.validatedFields decl)
     | none => "bad-op"
+  | ["mw", variant, dec, kind, hx, ca, de] =>
+    match unhex hx with
+    | none => "bad-op"
+    | some mb =>
+      match String.fromUTF8? (ByteArray.mk mb.toArray) with
+      | none => "bad-op"
+      | some msg =>
+        let vres : Mw.VRes := if kind == "ok" then .ok else .err msg (ca == "1") (de == "1")
+        let env : Mw.Env Unit := { zero := (), decode := fun _ => if dec == "1" then some () else none, validate := fun _ _ => vres }
+        match Spec.specAct (variant == "c") env with
+        | .respond st body => "respond\t" ++ toString st ++ "\t" ++ hexBytes body.toUTF8.toList
+        | .callNext => "next"
+        | .fallOff => "falloff"
+        | .stuck => "stuck"
   | _ => "bad-op"
 
 def main : IO Unit := do
